@@ -1,7 +1,8 @@
 (* C37 — path patterns match exactly their expansions; precedence is order-independent.
    This file holds the property theorems only: statement, `exact <lemma>`, Print Assumptions.
    Model: models/Patterns.v (interfaces/prompting/patterns: scan.go, parse.go, render.go, variant.go, patterns.go).
-   doublestar.Match (matching) and regexp (submatches) are third-party: a Section variable / an arbitrary decomposition. *)
+   doublestar.Match is third-party: ported as `path_pattern_matches` (pinned by the tie) and generic `gm` in the guarded theorem;
+   regexp submatches: an arbitrary decomposition. *)
 From Coq Require Import String List NArith ZArith Bool Permutation.
 Import ListNotations.
 Require Import V.lib.Bytes V.models.Patterns V.proofs.PatternsProofs.
@@ -68,6 +69,24 @@ Theorem C37_normalised_variant_refuted : forall gm : bytes -> bytes -> bool,
                       expand t = [p] /\ gm p path <> existsb (fun v => gm v path) rs.
 Proof. exact normalised_variant_refuted. Qed.
 Print Assumptions C37_normalised_variant_refuted.
+
+(* the same, closed, for the ported doublestar matcher `path_pattern_matches` (pinned to the real PathPatternMatches by the
+   differential run: original pattern and every rendered variant on every generated path) *)
+Theorem C37_normalised_variant_refuted_ported :
+  exists p t rs path, parse_pattern p = Some t /\ render_all t = Some rs /\ normal_form t = false /\ expand t = [p] /\
+                      path_pattern_matches p path <> existsb (fun v => path_pattern_matches v path) rs.
+Proof. exact ported_normalised_variant_refuted. Qed.
+Print Assumptions C37_normalised_variant_refuted_ported.
+
+(* `matches the original iff matches some element of the syntactic expansion` is FALSE for the faithful matcher, even for a
+   normal-form pattern: slash-star-empty-group does not match the root path although its only expansion slash-star does
+   (findings star-before-group / doublestar-slash-before-group). This is why C37_match_iff_some_variant_partial keeps the
+   per-pattern hypothesis on the matcher instead of an unconditional structural induction. *)
+Theorem C37_match_iff_some_syntactic_expansion_refuted :
+  exists p t path, parse_pattern p = Some t /\ normal_form t = true /\
+                   path_pattern_matches p path = false /\ existsb (fun s => path_pattern_matches s path) (expand t) = true.
+Proof. exact ported_syntactic_expansion_refuted. Qed.
+Print Assumptions C37_match_iff_some_syntactic_expansion_refuted.
 
 (* Compare, for ANY component lists and ANY submatch decomposition: swapping the operands flips the sign *)
 Theorem C37_compare_antisym : forall l1 l2 : list kcomp, compare l2 l1 = CompOpp (compare l1 l2).
